@@ -526,10 +526,22 @@ class Impl:
                 u, off = dt_parts(j.datetime)
                 out.append("J %d %d %s %d %d %d" % (jid, u, s_otz(off), j.attempts, j.failed_attempts,
                                                     int(j.has_attempts_remaining)))
+                self.check_reported(jid, j)
             out.extend(self.events)
         out.append("END")
         self.events = []
         return out
+
+    def check_reported(self, jid, j):
+        """timedelta(x) and timedelta() must denote the same instant as datetime (C01-C03: the due time a job reports)"""
+        try:
+            tz = j.datetime.tzinfo
+            now = dt.datetime.now(tz)
+            probe = now + dt.timedelta(days=3, microseconds=1)
+            if j.timedelta(probe) != j.datetime - probe or abs(j.timedelta() - (j.datetime - dt.datetime.now(tz))) > dt.timedelta(0):
+                self.events.append("EV timedelta-inconsistent %d" % jid)
+        except TypeError:
+            pass        # a job built for another awareness than the clock's: not this oracle's business
 
     def step(self, o):
         k = o[0]
